@@ -80,6 +80,21 @@ def gen_cases(tier, seed):
                     apps.append(a)
                 cases.append({"id": "MA/%s/%s/%d/%d" % (pk, scheme, nchunk, nappend), "frame": fr, "appends": apps,
                               "opts": {"file_scheme": scheme, "partition_on": ["p0"], "row_group_offsets": 2}, "page_size": None, "dpv": 1})
+    # the same through a handle that renumbers the part files as it appends (write_row_groups(sort_pnames=True)): every row group
+    # is spread over both key directories, so a renumbering moves files onto names that are still in use
+    k = 0
+    for pk in ("pint", "pstr"):
+        for nchunk, nappend in ((2, 1), (3, 2), (5, 1)):
+            k += 1
+            fr = {"seed": 5200 + k, "nrows": 4 * nchunk, "cols": [{"name": "rid", "kind": "rid"}, {"name": "v0", "kind": "int64", "nulls": "none"},
+                                                                  {"name": "p0", "kind": pk, "card": 2, "off": k}], "index": None}
+            apps = []
+            rid0 = fr["nrows"]
+            for j in range(nappend):
+                apps.append(dict(fr, seed=5300 + 17 * k + j, nrows=4, rid0=rid0))
+                rid0 += 4
+            cases.append({"id": "MS/%s/%d/%d" % (pk, nchunk, nappend), "frame": fr, "appends": apps, "append_via": "handle_sorted",
+                          "opts": {"file_scheme": "hive", "partition_on": ["p0"], "row_group_offsets": 4}, "page_size": None, "dpv": 1})
     return cases
 
 
@@ -150,7 +165,11 @@ def run_case(case):
             for a in case.get("appends") or []:
                 dfa = D.build_dataset_frame({"frame": a})
                 try:
-                    fastparquet.write(path, dfa, append=True, **C.write_kwargs(opts))
+                    if case.get("append_via") == "handle_sorted":
+                        fastparquet.ParquetFile(path).write_row_groups(dfa, sort_pnames=True)
+                        counters["appends_through_a_handle_that_renumbers_parts"] = counters.get("appends_through_a_handle_that_renumbers_parts", 0) + 1
+                    else:
+                        fastparquet.write(path, dfa, append=True, **C.write_kwargs(opts))
                 except Exception as e:
                     if scheme == "drill" and isinstance(e, ValueError) and "Requested file scheme is drill" in str(e):
                         # a refusal (C07's open finding): nothing was stored, so nothing can be misplaced
@@ -297,4 +316,4 @@ def _features(case, keyed, df):
 
 
 def required(tier):
-    return {"rows_placed": 5000, "part_files_checked": 1000, "partition_values_compared": 3000, "drill_values_compared": 1000, "appends_to_datasets_with_many_parts": 15}
+    return {"rows_placed": 5000, "part_files_checked": 1000, "partition_values_compared": 3000, "drill_values_compared": 1000, "appends_to_datasets_with_many_parts": 15, "appends_through_a_handle_that_renumbers_parts": 6}
